@@ -282,3 +282,53 @@ def likelihood_fn_contract(clsname, field):
 
 likelihood_fn_contract('DeterministicInference', 'LL_det')
 likelihood_fn_contract('StochasticInference', 'LL_stoch')
+
+
+# "A value outside the distribution's support, or a negative value under the 'positive' flag, is rejected: the posterior there is minus
+# infinity" - for EVERY family, through the function the sampler calls (the uniform variant above exercises only one way of signalling a
+# rejection; a log-gaussian prior at a negative value signals it with a NaN - seed C16-c)
+def posterior_contract(clsname, field, family, positive):
+    params, pre, support, density = FAMILIES[family][:4]
+    outside = FAMILIES[family][4] if len(FAMILIES[family]) > 4 else 'not (%s)' % support
+
+    @fuc('pid_interfaces', clsname + '.get_likelihood_function', props=['C16', 'C15'], variant='posterior:%s%s' % (family, '+positive' if positive else ''))
+    def _(c):
+        def build(ex, cls):
+            fr = ex.frame
+            LLv = ex.fresh('LLvalue', REAL)
+            fr.env['LLvalue'] = LLv
+            calls = []
+            fr.env['_calls'] = calls
+            LL = Stub('likelihood', methods={'set_init_params': lambda ex_, d: calls.append(('set', dict(d))),
+                                             'py_log_likelihood': lambda ex_: (calls.append(('ll',)), LLv)[1]})
+            entry = [family]
+            for x in params:
+                v = ex.fresh(x[1:], REAL)
+                fr.env[x[1:]] = v
+                entry.append(v)
+            if positive:
+                entry.append('positive')
+            o = ex.allocate(cls, 'self')
+            o.fields.update({field: LL, 'params_to_estimate': ['p'], 'prior': {'p': entry}, 'default_parameters': {'p': ex.fresh('p_default', REAL)},
+                             'log_space_parameters': False, 'debug': False, 'M': None})
+            return o
+        c.concrete_self = build
+
+        def pv(ex):
+            v = ex.fresh('v', REAL)
+            ex.frame.env['v'] = v
+            return [v]
+        c.hints['params'] = dict(value=pv)
+        for q in pre:
+            c.requires(q)
+        sup = support if not positive else '(%s) and v >= 0' % support
+        out = outside if not positive else '(%s) or v < 0' % outside
+        c.ensures('implies(%s, result == %s + LLvalue)' % (sup, density), label='log-density-plus-log-likelihood-inside-the-support')
+        c.ensures('implies(%s, result == -float("inf"))' % out, label='minus-infinity-outside-the-support')
+        c.opt(verify_only=True)
+
+
+for _fam in FAMILIES:
+    for _pos in (False, True):
+        posterior_contract('DeterministicInference', 'LL_det', _fam, _pos)
+        posterior_contract('StochasticInference', 'LL_stoch', _fam, _pos)
